@@ -14,7 +14,7 @@ pub fn prop() -> Prop {
         rule: "(i) all byte strings of length <=5 (thorough 6) over a 24-byte JSON alphabet and <=4 (5) over 28 bytes incl. invalid UTF-8, under every --on-error policy up to length 4 (5); (ii) every prefix and every single-byte corruption (by each of 28 bytes, at each offset) of every U1 document and of touching pairs over the core; (iii) structural families up to 4 KiB with nesting <= 64; (iv) every pure function applied to every argument tuple (arity <= 3) over a 24-atom menu incl. ill-typed ones, on 4 inputs; (v) multi-byte characters at every byte offset 0..40 of string arguments and of expression texts in every option; (vi) %+every ASCII byte in strftime formats, out-of-range instants. Non-trivial = the input is not a clean stream / the call is not the documented happy path; distinct by construction",
         explanation: "exhaustive enumeration; oracle: the run returns (Ok or Err) without a panic (caught in-process), abort or hang (worker watchdog + breadcrumb)",
         assumptions: COMMON_ASSUMPTIONS.to_vec(),
-        guards: vec!["regex-calls-nested-under-a-cache", "invalid-utf8-input", "policy-panic", "truncated-document", "ill-typed-call", "multibyte-at-offset-32", "strftime-byte"],
+        guards: vec!["object-with-many-kinds-of-member-names", "regex-calls-nested-under-a-cache", "invalid-utf8-input", "policy-panic", "truncated-document", "ill-typed-call", "multibyte-at-offset-32", "strftime-byte"],
         budget_s: (120, 3000),
         single_worker: false,
         run,
@@ -632,7 +632,38 @@ fn part_vii(ctx: &mut Ctx) {
     ctx.level_done("vii:regex-functions-nested-to-depth-2-x-cache-sizes-0,1,2");
 }
 
+/// objects with many member names of several kinds (plain integers, digits followed by text, text, non-ASCII) in
+/// several arrangements, through every function that takes an object
+fn part_viii(ctx: &mut Ctx) {
+    let key_of = |j: usize| match j % 6 {
+        0 => format!("{j}"),
+        1 => format!("{j}a"),
+        2 => format!("k{j}"),
+        3 => format!("{j}.5"),
+        4 => format!("{j}-"),
+        _ => format!("\u{e9}{j}"),
+    };
+    let fns = ["(sort_by_keys .)", "(sort_by_values .)", "(keys .)", "(entries .)", "(map_keys . (concat . \"x\"))", "(filter_keys . (number? (parse .)))", "(sort_by_values_by . (- .))", "(stringify .)", "(sort (keys .))", "(sort_by (entries .) .key)"];
+    for n in [5usize, 20, 21, 24, 32, 33, 65, 130] {
+        for rot in 0..8usize {
+            if !ctx.mine() {
+                continue;
+            }
+            let members: Vec<String> = (0..n).map(|i| format!("\"{}\": {}", key_of((i * (2 * rot + 1) + rot * rot) % n.max(1) + if (2 * rot + 1) % n == 0 { i } else { 0 }), (i * 7 + rot) % 11)).collect();
+            // duplicates are possible for some (n, rot): the parser keeps the last one, which is as good an object as any
+            let input = format!("{{{}}}", members.join(", "));
+            let exprs: Vec<String> = fns.iter().map(|s| s.to_string()).collect();
+            ctx.guard("object-with-many-kinds-of-member-names");
+            for p in ["ignore", "panic"] {
+                run_exprs(ctx, &exprs, &input, p, "object-function", "sort_by_keys");
+            }
+        }
+    }
+    ctx.level_done("viii:objects-of-5..130-members-with-names-of-several-kinds-x-10-object-functions");
+}
+
 fn run(ctx: &mut Ctx) {
+    part_viii(ctx);
     part_vii(ctx);
     part_iii(ctx);
     part_vi(ctx);
